@@ -207,6 +207,7 @@ def run_check(check_id, tier, seed, log=print):
             "functions_encoded": functions_evidence(total.functions),
             "reachability_markers": total.reached,
             "stubs": getattr(mod, "STUBS", []),
+            "second_opinion_cvc5": dict(zip(("obligations_re_decided", "agree", "no_opinion"), getattr(total, "second_opinion", [0, 0, 0]))),
             "engine": "pysym (source-level symbolic execution of " + root + ", re-parsed this run) + z3 " + _z3v(),
             "known_findings_matched": sorted(known_hits),
             "violations_reported": len(violations),
@@ -274,6 +275,8 @@ def replay(check_id, path):
 
 def main(argv):
     import argparse
+    if "--tier" in argv and "thorough" in argv and "VERIF_CVC5_SAMPLE" not in os.environ:
+        os.environ["VERIF_CVC5_SAMPLE"] = "400"
     ap = argparse.ArgumentParser()
     ap.add_argument("check")
     ap.add_argument("--tier", default=os.environ.get("VERIF_TIER", "quick"), choices=["quick", "thorough"])
